@@ -67,11 +67,15 @@ defvjp(pinv, grad_pinv)
 
 def grad_solve(argnum, ans, a, b):
     # b holds vectors exactly when the solution has one dimension less than a
-    updim = lambda x: x[..., None] if anp.ndim(ans) == anp.ndim(a) - 1 else x
+    vec = anp.ndim(ans) == anp.ndim(a) - 1
+    updim = lambda x: x[..., None] if vec else x
+    # solve the adjoint system on explicit column matrices: a cotangent holding
+    # a stack of vectors would otherwise be read as a single matrix
+    solve_t = lambda g: solve(T(a), updim(g))
     if argnum == 0:
-        return unbroadcast_f(a, lambda g: -_dot(updim(solve(T(a), g)), T(updim(ans))))
+        return unbroadcast_f(a, lambda g: -_dot(solve_t(g), T(updim(ans))))
     else:
-        return unbroadcast_f(b, lambda g: solve(T(a), g))
+        return unbroadcast_f(b, lambda g: solve_t(g)[..., 0] if vec else solve_t(g))
 
 
 defvjp(solve, partial(grad_solve, 0), partial(grad_solve, 1))
